@@ -750,6 +750,25 @@ def run(ctx):
                         f"a fresh process that touches no setting: write_to_file(<loaded path>) gives `{res_line[7:]}`, the source file is "
                         f"{'unchanged' if after == before else 'CHANGED'}; with the default settings the overwrite has to be refused",
                         {"op": "shipped-defaults"})
+        # ---- the loaded path stays protected after the scenario was saved elsewhere (a sequence: load A, save B, save A) ---
+        d2 = os.path.join(tmp, "save_elsewhere_first"); os.makedirs(d2)
+        src2, other2 = os.path.join(d2, "src.aoe2scenario"), os.path.join(d2, "other.aoe2scenario")
+        with open(src2, "wb") as f:
+            f.write(base(4))
+        before2 = sha(open(src2, "rb").read())
+        settings.ALLOW_OVERWRITING_SOURCE = False
+        scn2 = quietly(AoE2DEScenario.from_file, src2)
+        st_a, _ = quietly(common.outcome, scn2.write_to_file, other2)
+        st_b, e_b = quietly(common.outcome, scn2.write_to_file, src2)
+        after2 = sha(open(src2, "rb").read()) if os.path.exists(src2) else None
+        R.case(key="save-elsewhere-then-source", nontrivial=True, tags=("sequence:save-elsewhere-then-source",))
+        if st_a == "ok" and (st_b == "ok" or after2 != before2):
+            R.violation({"clause": "refused_by_default", "sequence": "load A, save B, save A", "observed": st_b,
+                         "source": "old" if after2 == before2 else "changed"},
+                        f"load A, save to B, save to A with the overwrite setting off: the second save gives `{st_b}` and the loaded file is "
+                        f"{'unchanged' if after2 == before2 else 'CHANGED'}; it has to be refused",
+                        {"op": "save-elsewhere-then-source"})
+        settings.ALLOW_OVERWRITING_SOURCE = saved_settings[0]
         R.extra["scenario_loads"] = dict(pool_stats)
         R.extra["violating_cases_by_clause"] = {}
         for sk, n in sig_count.items():
